@@ -45,6 +45,7 @@ pub fn run(pid: &str, c: &Case) {
         "C11" => c11(c),
         "C14" => c14(c),
         "C17" => c17(c),
+        "C12" => crate::c12::c12(c),
         _ => { println!("reproduced=false"); println!("error=unknown property {}", pid); }
     }
 }
